@@ -1002,6 +1002,21 @@ def method_call(ev, recv, name, args, kwargs, fr, node):
         if name != 'lower' and (not args or (T.is_const(args[0]) and isinstance(args[0][1], str)
                                             and not (set(args[0][1]) & set('0123456789abcdef')))):
             return recv
+    if T.is_op(recv, 'CAT') and name in ('strip', 'lstrip', 'rstrip') and len(args) <= 1 and len(recv) >= 4 \
+            and T.is_const(recv[2]) and isinstance(recv[2][1], str) and recv[2][1] and T.is_op(recv[-1], 'HEX') and len(recv[-1]) == 3 \
+            and (T.length_of(recv[-1][2]) or 0) > 0:
+        # constant text followed by canonical hex digits ('0x' + hex): nothing is stripped when neither the first character of
+        # the constant nor a hex digit is in the strip set
+        chars = None
+        if not args or args[0] == T.NONE:
+            chars = set(' \t\n\r\x0b\x0c\x1c\x1d\x1e\x1f\x85\xa0')
+        elif T.is_const(args[0]) and isinstance(args[0][1], str):
+            chars = set(args[0][1])
+        if chars is not None and recv[2][1][0] not in chars and not (chars & set('0123456789abcdef')):
+            return recv
+    if T.is_op(recv, 'CAT') and name in ('startswith',) and len(args) == 1 and T.is_const(args[0]) and isinstance(args[0][1], str) \
+            and T.is_const(recv[2]) and isinstance(recv[2][1], str) and len(recv[2][1]) >= len(args[0][1]):
+        return T.const(recv[2][1].startswith(args[0][1]))
     if T.is_op(recv, 'HEX') and name == 'startswith' and len(args) == 1 and T.is_const(args[0]) and isinstance(args[0][1], str) \
             and set(args[0][1]) - set('0123456789abcdef'):
         return T.FALSE
